@@ -23,7 +23,7 @@ def chunkEncMeta (file : Array Nat) : Except String (List String) := do
       let st := match cm.encStats with
         | some l => showList (l.map fun (x : Nat × Nat × Nat) => s!"[{x.1},{x.2.1},{x.2.2}]")
         | none => "-1"
-      out := out ++ [s!"[{ri},{ci},{showNats cm.encodings},{st}]"]
+      out := out ++ [s!"[{ri},{ci},{showNats cm.encodings},{st},{optN cm.nullCount}]"]
       ci := ci + 1
     ri := ri + 1
   pure out
@@ -58,7 +58,7 @@ def handleWPage (op : String) (a : Args) : String :=
             (if c.dictItem.isSome then pages.flatten.map (fun x => match x with | .int i => cats.getD i Cell.null | y => y) else pages.flatten)
             ∧ acc.loose = 0 then "same" else "differs"
       | .error e => "error:" ++ e.replace " " "_"
-    "ok back=" ++ back ++ s!" encodings={showNats (writerEncodings c)} stats={showList ((writerEncStats c pages.length).map fun (x : Nat × Nat × Nat) => s!"[{x.1},{x.2.1},{x.2.2}]")}"
+    "ok back=" ++ back ++ s!" nullcount={writerNullCount pages} encodings={showNats (writerEncodings c)} stats={showList ((writerEncStats c pages.length).map fun (x : Nat × Nat × Nat) => s!"[{x.1},{x.2.1},{x.2.2}]")}"
       ++ s!" metaok={if (encodingsProblem (writerEncodings c) (some (writerEncStats c pages.length)) (out.map fun (p, _) => (p.ptypeTag, p.encoding))).isNone then 1 else 0}"
       ++ " pages=" ++ showList (out.map fun (p, body) =>
       s!"[{p.ptypeTag},{p.numValues},{p.encoding},{optN p.numNulls},{optN p.numRows},{p.defLen},{toHex body}]")
